@@ -37,6 +37,8 @@ SLOTS = {
     # (interface body / internal procedure) inside, or the other way round - the innermost declaration is meant whatever its kind
     "ppi-cross-ap": ("absint", "PI"),
     "ppi-cross-pa": ("proc", "PI"),
+    # a generic interface named like one of its own specific procedures
+    "generic-samename": ("proc", "M"),
     # a deferred binding has an interface but no target: procedures that happen to carry the binding's name are not its target
     "deferred-name": ("proc", "M"),
 }
@@ -118,6 +120,8 @@ def ref_lines(slot, refname):
         return ["type reft", "contains", f"  final :: {refname}", "end type reft"], []
     if slot == "generic":
         return ["interface refg", f"  module procedure {refname}", "end interface refg"], []
+    if slot == "generic-samename":
+        return [f"interface {refname}", f"  module procedure {refname}, gs_other", f"end interface {refname}"], []
     if slot == "deferred":
         return ["type, abstract :: reft", "contains", f"  procedure({refname}), deferred, nopass :: refb", "end type reft"], []
     if slot == "deferred-name":
@@ -225,6 +229,8 @@ def build(slot, scope, present, case, order, useform=DEFAULT_USE):
         hp += ["contains"] + ind(inner)
     hp += ["end subroutine hostp"]
     procs = (sibq + hp) if order == "before" else (hp + sibq)
+    if slot == "generic-samename":
+        m_cont = m_cont + ["subroutine gs_other(a_gs)", "  real :: a_gs", "end subroutine gs_other"]
     src = ["module hostm"] + ([] if use_in_self else ind(uline.split("\n"))) + ["  implicit none"] + ind(m_spec) + ["contains"] + ind(m_cont) + ind(procs) + ["end module hostm"]
     files["src/m_host.f90"] = "\n".join(src) + "\n"
     return files
@@ -288,6 +294,12 @@ def observe(project, slot, scope):
         return tag_of(t[0].finalprocs[0].procedure) if t[0].finalprocs[0].procedure is not None else "unresolved"
     if slot == "constructor":
         return tag_of(t[0].constructor) if t[0].constructor is not None else "unresolved"
+    if slot == "generic-samename":
+        i = [i for i in ref.interfaces if i.name.lower() == X][0]
+        mp = [m_ for m_ in i.modprocs if m_.name.lower() == X]
+        if not mp:
+            return "<modproc moved>"
+        return tag_of(mp[0].procedure) if mp[0].procedure is not None and mp[0].procedure is not i else ("<the generic itself>" if mp[0].procedure is i else "unresolved")
     if slot == "generic":
         i = [i for i in ref.interfaces if i.name == "refg"][0]
         if not i.modprocs:
@@ -638,6 +650,8 @@ def gen_main_cases(tier):
                     if "module" in present and "used" in present:
                         continue  # a use-associated name cannot be redeclared in the same scope
                     want = resolve(scope, present)
+                    if slot == "generic-samename" and "module" not in present:
+                        continue  # the specific procedure of that name is the module's own
                     if slot == "generic" and want is None:
                         continue  # MODULE PROCEDURE must name an accessible procedure
                     if slot in ("binding", "final", "generic") and want == "used" and False:
@@ -648,7 +662,7 @@ def gen_main_cases(tier):
                                 continue
                             yield (slot, scope, present, case, order)
                     # the USE statement that brings `used` in: other forms / in the referencing scope itself / re-exported
-                    if "used" not in present or slot == "constructor":
+                    if "used" not in present or slot in ("constructor", "generic-samename"):
                         continue
                     for where in ("module", "self") if scope != "M" else ("module",):
                         for form in USE_FORMS:
